@@ -337,7 +337,7 @@ def rule_resvec(ctx, M):
     ent = M.consumers.get("ResultVecConsumer")
     ctx.require(ent is not None and ent["progress"] is not None, "ResultVecConsumer::progress coroutine")
     b = ent["progress"]
-    bi = M.info(b)
+    bi = costream.effective_body(M, M.info(b))      # `self.drain().await` -> the private async helper, in the caller's terms
     out = cfield("output")
     aws = costream.group_next_awaits(bi)
     probs = []
@@ -400,7 +400,12 @@ def rule_resvec(ctx, M):
     fb = ent["flush"]
     fi = M.info(fb)
     aw = [a for a in costream.awaits(fi) if a.kind is not None and a.kind[1] == "progress" and a.call_args and a.call_args[0] == cupvar(0)]
-    ctx.check(len(aw) == 1 and len(costream.awaits(fi)) == 1, "C14.RESVEC", fb.def_, "flush awaits progress()", site=fb.span)
+    ok_flush = len(aw) == 1 and len(costream.awaits(fi)) == 1
+    if not ok_flush and len(costream.awaits(fi)) == 1 and bi is not M.info(b):
+        # progress is `helper(self).await`: flush may await the very same helper on the same receiver
+        hv = costream.helper_view(M, fi, costream.awaits(fi)[0])
+        ok_flush = hv is not None and hv.body.def_ == bi.body.def_ and tuple(costream.awaits(fi)[0].call_args)[:1] == (cupvar(0),)
+    ctx.check(ok_flush, "C14.RESVEC", fb.def_, "flush awaits progress()", site=fb.span)
     # from_concurrent_stream returns the output it lent to the consumer
     for x in M.F.bodies:
         if x.def_.endswith("from_concurrent_stream::{closure#0}") and "Result<" in x.def_.split(" as ")[0]:
